@@ -14,12 +14,14 @@ func init() {
 			ID: "C30", Title: "IS-IS PDU decoding is total and encoding round-trips", Level: "other",
 			Technique:   "panic-capable-operation enumeration with structural discharge (R-PCO), allocation-size and loop-form checks (R-TAINT) over everything statically reachable from the IS-IS decoders; reader/writer table agreement of the TLV registry",
 			DesignRef:   "DESIGN.md §4 C30",
-			Decided:     "for every function reachable from packet.Decode, DecodeHeader, DecodeP2PHello, DecodeL2Hello, DecodeLSPDU, DecodeCSNP, DecodePSNP in protocols/isis/packet and util/decode: (1) every explicit index, slice, unchecked type assertion, division and panic() is discharged by a dominating guard; (2) every make() size is a constant, of a ≤16-bit type or bounded by bytes received, and contains no unguarded subtraction; (3) every loop makes progress; (4) every TLV type the reader dispatches on has a serializer that writes that type code and vice versa (table agreement).",
+			Decided:     "(0) no reader of a TLV that bio-rd also constructs rejects, by a test on the TLV length, a length the constructor can produce (empty lists included); for every function reachable from packet.Decode, DecodeHeader, DecodeP2PHello, DecodeL2Hello, DecodeLSPDU, DecodeCSNP, DecodePSNP in protocols/isis/packet and util/decode: (1) every explicit index, slice, unchecked type assertion, division and panic() is discharged by a dominating guard; (2) every make() size is a constant, of a ≤16-bit type or bounded by bytes received, and contains no unguarded subtraction; (3) every loop makes progress; (4) every TLV type the reader dispatches on has a serializer that writes that type code and vice versa (table agreement).",
 			NotDecided:  "round-trip equality of the content (value equality).",
 			TrustedBase: append([]string{"bytes.Buffer / encoding/binary read functions return an error at end of input"}, stdTrusted...),
 		},
 		Run: runC30,
 		Controls: []Control{
+			{Name: "reader-rejects-empty-address-list", File: "protocols/isis/packet/tlv_ip_interface_addresses.go", Old: "\tpdu := &IPInterfaceAddressesTLV{\n\t\tTLVType:       tlvType,", New: "\tif tlvLength < 4 || tlvLength%4 != 0 {\n\t\treturn nil, fmt.Errorf(\"invalid length %d\", tlvLength)\n\t}\n\n\tpdu := &IPInterfaceAddressesTLV{\n\t\tTLVType:       tlvType,", Expect: "reader-accepts-what-the-constructor-builds"},
+			{Name: "refactor-reader-rejects-partial-address", Silent: true, File: "protocols/isis/packet/tlv_ip_interface_addresses.go", Old: "\tpdu := &IPInterfaceAddressesTLV{\n\t\tTLVType:       tlvType,", New: "\tif tlvLength%4 != 0 {\n\t\treturn nil, fmt.Errorf(\"invalid length %d\", tlvLength)\n\t}\n\n\tpdu := &IPInterfaceAddressesTLV{\n\t\tTLVType:       tlvType,"},
 			{Name: "protocol-ids-made-too-short", File: "protocols/isis/packet/tlv_protocols_supported.go", Old: "\t\tNetworkLayerProtocolIDs: make([]uint8, tlvLength),", New: "\t\tNetworkLayerProtocolIDs: make([]uint8, tlvLength/2),", Expect: "no-panic"},
 			{Name: "tlv-loop-without-progress", File: "protocols/isis/packet/tlv.go", Old: "\theadFields := []interface{}{\n\t\t&tlvType,\n\t\t&tlvLength,\n\t}\n", New: "\theadFields := []interface{}{}\n", Expect: "bounded-loop"},
 			{Name: "lsp-entries-indexed-by-byte-counter", File: "protocols/isis/packet/tlv_lsp_entries.go", Old: "\t\tpdu.LSPEntries = append(pdu.LSPEntries, e)", New: "\t\tpdu.LSPEntries = pdu.LSPEntries[:cap(pdu.LSPEntries)]\n\t\tpdu.LSPEntries[toRead/LSPEntryLen] = e", Expect: "no-panic"},
@@ -33,6 +35,7 @@ func isisScope(f *core.Fn) bool {
 }
 
 func runC30(c *core.Ctx) {
+	decoderAcceptsEncoderLengths(c)
 	var roots []*core.Fn
 	for _, k := range []string{"Decode", "DecodeHeader", "DecodeP2PHello", "DecodeL2Hello", "DecodeLSPDU", "DecodeCSNP", "DecodePSNP"} {
 		if f := c.MustFunc(isisPkt + "." + k); f != nil {
